@@ -42,6 +42,7 @@ def stateName : PState → String
   | .legacyRequested => "legacy_requested" | .legacyConfirmed => "legacy_confirmed"
   | .lescRequested => "lesc_requested" | .lescKeysExchanged => "lesc_keys_exchanged"
   | .lescConfirmSend => "lesc_confirm_send" | .lescRandomExchanged => "lesc_random_exchanged"
+  | .userWaitVerified => "user_wait_dhkey_verified"
 
 def parseCfg (v io bond : String) : Option Cfg := do
   let variant ← match v with
